@@ -286,6 +286,7 @@ func conclude(p *Prop, tier string, seed int64, results []*shardResult, start ti
 	}
 	var viols []viol
 	nInconc := 0
+	var inconcNotes []string
 	for _, r := range results {
 		for k, v := range r.counters {
 			if strings.HasPrefix(k, "max_") {
@@ -306,6 +307,11 @@ func conclude(p *Prop, tier string, seed int64, results []*shardResult, start ti
 			viols = append(viols, viol{v, r.shard})
 		}
 		nInconc += len(r.inconc)
+		for _, ic := range r.inconc {
+			if len(inconcNotes) < 4 {
+				inconcNotes = append(inconcNotes, ic.Case+": "+ic.Reason)
+			}
+		}
 		if !r.done {
 			what := fmt.Sprintf("worker shard %d ended abnormally (timedOut=%v err=%v) last case=%q log=%s",
 				r.shard, r.timedOut, r.exitErr, r.lastCase, r.logPath)
@@ -382,6 +388,9 @@ func conclude(p *Prop, tier string, seed int64, results []*shardResult, start ti
 	for _, s := range infra {
 		fmt.Println("INCONCLUSIVE:", s)
 	}
+	for _, s := range inconcNotes {
+		fmt.Println("note: inconclusive trial", s)
+	}
 
 	cov := map[string]interface{}{
 		"evaluations":         counters["cases"],
@@ -390,6 +399,7 @@ func conclude(p *Prop, tier string, seed int64, results []*shardResult, start ti
 		"samples":             samples,
 		"counters":            counters,
 		"inconclusive_trials": counters["inconclusive"],
+		"inconclusive_notes":  inconcNotes,
 		"worker_processes":    len(results),
 	}
 	if p.Exhaustive != nil && p.Exhaustive(tier) {
